@@ -107,6 +107,9 @@ impl Case {
             opts.push(vec![format!("--{}={f}", nm(4, &["split-by", "break-by"]))]);
         }
         match &s.group {
+            // (also in clap's two-argument form `--group-by EXPR`: the two stay together, see the end of this function)
+            Some(Some(g)) if sh != 0 && (sh >> 20) % 3 == 0 && !g.is_empty() && !g.starts_with('-') =>
+                opts.push(vec![format!("--{}\u{1}{g}", nm(5, &["group-by", "combine", "merge"]))]),
             Some(Some(g)) => opts.push(vec![format!("--{}={g}", nm(5, &["group-by", "combine", "merge"]))]),
             Some(None) => opts.push(vec![format!("--{}", nm(5, &["merge", "group-by", "combine"]))]),
             None => {}
@@ -202,7 +205,19 @@ impl Case {
             argv.push(fams[l][next[l]].clone());
             next[l] += 1;
         }
-        argv
+        // clap hands a BARE optional-valued option (`--merge`, `--group-by`, `--combine` without `=`) the argument after it
+        // as its value unless that looks like an option: `--merge in0.json` would group by the text of the path.  That is the
+        // documented command line, not an ordering the property speaks about: keep input files in front of such an option.
+        let bare = |a: &str| a == "--merge" || a == "--group-by" || a == "--combine";
+        let mut i = 0;
+        while i + 1 < argv.len() {
+            if bare(&argv[i]) && !argv[i + 1].starts_with('-') {
+                argv.swap(i, i + 1);
+            }
+            i += 1;
+        }
+        // an option written in two arguments
+        argv.into_iter().flat_map(|a| a.split('\u{1}').map(String::from).collect::<Vec<_>>()).collect()
     }
 
     /// the protocol line; file names are sent as the full scratch path (it is `&file-name`)
